@@ -103,6 +103,17 @@ def run_case(case: dict) -> dict:
             elif o == "pdo_stop":
                 pdo.stop()
                 log({"e": o})
+            elif o == "sync_cob":
+                net.sync.cob_id = op["id"]
+                log({"e": o, "id": op["id"]})
+            elif o == "pdo_echo":
+                # a frame with the map's own COB-ID reaches the network (time stamps in half seconds)
+                skipped = pdo.cob_id in (0, None)
+                if not skipped:
+                    pdo.enabled = True
+                    pdo.subscribe()
+                    net.notify(pdo.cob_id, bytearray(op["d"]), op["ts"] / 2)
+                log({"e": o, "d": list(op["d"]), "ts": op["ts"], "skipped": skipped})
             elif o == "pdo_cob":
                 pdo.cob_id = op["id"]
                 log({"e": o, "id": op["id"]})
@@ -110,8 +121,9 @@ def run_case(case: dict) -> dict:
                 if straddle:
                     # only the 8-bit object is written; the frame the bus must carry is computed here
                     nib = bytes(pdo.data)[0] & 0x0F
+                    top = (bytes(pdo.data)[1] & 0xF0) << 8       # (bits 12..15: only a received frame sets them)
                     pdo[1].raw = op["d"][0]
-                    frame = nib | (op["d"][0] << 4)
+                    frame = nib | (op["d"][0] << 4) | top
                     log({"e": o, "d": [frame & 0xFF, frame >> 8]})
                 else:
                     pdo[0].raw = op["d"][0] | op["d"][1] << 8
